@@ -75,10 +75,11 @@ class Report:
                 continue
             seen.add(full)
             ent = known.get((self.prop, full))
-            if ent is not None:
+            if ent is not None and not ent.get("demonstrated_only"):
                 kf.append((full, ent, d, s))
             else:
                 viol.append((full, d, s))
+        demonstrated = [e for (p_, k_), e in sorted(known.items()) if p_ == self.prop and e.get("demonstrated_only")]
         wall = time.time() - self.t0
         os.makedirs(os.path.join(OUT, "evidence"), exist_ok=True)
         samples = []
@@ -99,6 +100,7 @@ class Report:
                 "obligations": nob,
                 "discharged": ndis,
                 "known_findings_reported": len(kf),
+                "demonstrated_findings_listed": [e["key"] for e in demonstrated],
                 "rules": {r: {"what": self.rules.get(r, ""), "instances": per_rule.get(r, [0, 0])[0],
                               "held": per_rule.get(r, [0, 0])[1], "floor": self.floors.get(r)} for r in
                           sorted(set(list(self.rules) + list(per_rule)))},
@@ -130,6 +132,11 @@ class Report:
             print("  rule %-7s %3d/%-3d %s" % (r, per_rule[r][1], per_rule[r][0], self.rules.get(r, "")[:110]))
         for (full, ent, d, s) in kf:
             print("KNOWN-FINDING: property=%s %s — %s" % (self.prop, full, ent.get("what", "")))
+        # defects reproduced against the real code (tests under findings/) that no static rule decides: listed so that they are
+        # not lost, never matched against a reported key (they suppress nothing)
+        for ent in demonstrated:
+            print("KNOWN-FINDING: property=%s %s — %s [reproduced by %s; not decided by a static rule]" % (
+                self.prop, ent["key"], ent.get("what", ""), ent.get("failing_input", "?")))
         if self.faults:
             for m in self.faults:
                 print("CHECKER-FAULT property=%s %s" % (self.prop, m))
